@@ -24,7 +24,8 @@ Inductive op :=
 | ORem (h : nat)                                    (* call removal closure h (again) *)
 | OUpd (p : path)                                   (* Match.Update *)
 | OOnce (ps : list path)                            (* UpdateOnce for each path, one shared set *)
-| ONotif (pre : option gpath) (ups dels : list (option gpath))  (* Server.Update on a leaf *)
+| ONotif (atomic : bool) (pre : option gpath) (ups dels : list (option gpath))
+    (* Server.Update on a leaf; [atomic] is Notification.Atomic, which Server.Update does not look at *)
 | ONodes                                            (* size of the trie *)
 | OConc (once : bool) (tq : path) (hs : list nat) (p : path).
     (* Update / UpdateOnce of p while a trigger client registered at tq (for
@@ -99,7 +100,14 @@ Fixpoint set_dead (h : nat) (l : list hinfo) : list hinfo :=
 (** the tree the snapshot queries run on: every update of the notification
     stored at its index path without the target (as the cache stores it);
     an Add that conflicts with an earlier one fails and is skipped *)
-Definition snap_tree (pre : option gpath) (ups : list (option gpath)) : tree nat :=
+Definition snap_tree (atomic : bool) (pre : option gpath) (ups : list (option gpath)) : tree nat :=
+  if atomic then
+    (* the cache stores an atomic notification as ONE leaf at its prefix *)
+    match ups, notif_prefix pre with
+    | _ :: _, _ :: ip => match add None ip 1%nat with Some t => t | None => None end
+    | _, _ => None
+    end
+  else
   fold_left (fun t u =>
                match notif_prefix pre ++ to_strings false (gp_of_opt u) with
                | [] => t
@@ -114,8 +122,8 @@ Definition sub_hits (t : tree nat) (ntarget : string) (pre : gpath) (ents : list
                     | _ => false
                     end) ents.
 
-Definition model_hits (hs : list hinfo) (pre : option gpath) (ups : list (option gpath)) : list cid :=
-  let t := snap_tree pre ups in
+Definition model_hits (hs : list hinfo) (atomic : bool) (pre : option gpath) (ups : list (option gpath)) : list cid :=
+  let t := snap_tree atomic pre ups in
   let nt := gp_target (gp_of_opt pre) in
   map fst (tally (flat_map (fun h => match h_sub h with
                                      | Some (p, ents) =>
@@ -149,8 +157,8 @@ Definition mstep (s : mst) (o : op) : mst * obs :=
       end
   | OUpd p => (s, ROffers (tally (match_update (m_trie s) p)))
   | OOnce ps => (s, ROffers (tally (fst (update_many (m_trie s) ps (Some [])))))
-  | ONotif pre ups dels =>
-      (s, RNotif (tally (server_update (m_trie s) pre ups dels)) (model_hits (m_handles s) pre ups))
+  | ONotif atomic pre ups dels =>
+      (s, RNotif (tally (server_update (m_trie s) pre ups dels)) (model_hits (m_handles s) atomic pre ups))
   | ONodes => (s, RNodes (nodes (m_trie s)))
   | OConc once tq hs p =>
       (* the callbacks run inside the read-locked section, so the removal
@@ -260,7 +268,6 @@ Definition judge (s : sst) (once : bool) (npaths : nat) (ps : list path)
   let live := regs_of c ps (s_reg s) in
   let gone := regs_of c ps (s_gone s) in
   let n := count_of c offers in
-  let nlive := List.length (dedup_paths (map r_path live)) in
   (* offered iff compatible *)
   (match live, n with
    | _ :: _, O => [2%N]
@@ -274,16 +281,12 @@ Definition judge (s : sst) (once : bool) (npaths : nat) (ps : list path)
   (match live with
    | [] => []
    | _ :: _ =>
-       if once then
-         if (2 <=? n)%nat then [3%N] else []
-       else if Nat.eqb n 0 || Nat.eqb n nlive then [] else [3%N]
+       (* Match.Update without a set may call a client once per matching node:
+          how often is an implementation detail (compared under tag 1 only) *)
+       if once && (2 <=? n)%nat then [3%N] else []
    end) ++
   (* a leaf the snapshot would return is streamed *)
   (if mem c hits && Nat.eqb n 0 then [5%N] else []).
-
-Definition spec_nodes (s : sst) : nat :=
-  List.length (dedup_paths (flat_map (fun r =>
-     map (fun k => firstn (S k) (r_path r)) (seq 0 (List.length (r_path r)))) (s_reg s))).
 
 (** the property on the implementation's observation of one step *)
 Definition kstep (s : sst) (o : op) (r : obs) : list N :=
@@ -293,7 +296,7 @@ Definition kstep (s : sst) (o : op) (r : obs) : list N :=
       flat_map (judge s false 1 [p] l []) (all_clients s l [])
   | OOnce ps, ROffers l =>
       flat_map (judge s true (List.length ps) ps l []) (all_clients s l [])
-  | ONotif pre ups dels, RNotif l hits =>
+  | ONotif _ pre ups dels, RNotif l hits =>
       let ps := map (fun p => notif_prefix pre ++ p) (notif_paths ups dels) in
       flat_map (judge s true (List.length ps) ps l hits) (all_clients s l hits)
   | OConc once tq hs p, RConc l _ _ late =>
@@ -311,15 +314,15 @@ Definition kstep (s : sst) (o : op) (r : obs) : list N :=
                               | [] => [4%N]
                               | _ :: _ => []
                               end) late
-  | ONodes, RNodes n =>
-      if Nat.eqb n (spec_nodes s) || negb (match s_unspec s with [] => true | _ :: _ => false end)
-      then [] else [6%N]
+  (* the size of the trie is an implementation detail: tag 1 only *)
   | _, _ => []
   end.
 
-(** ** verdicts: tag 1 model differs; 2 offered set wrong; 3 offered more
-    than once; 4 offered after removal; 5 snapshot leaf not streamed; 6 trie
-    not pruned; 7 panic. *)
+(** ** verdicts: tag 1 model differs (this includes the size of the trie and
+    how often Match.Update calls a client registered on several matching
+    paths, which are implementation details and never a K_P tag); 2 offered
+    set wrong; 3 offered more than once per notification; 4 offered after
+    removal; 5 snapshot leaf not streamed; 7 panic. *)
 
 Fixpoint check_from (i : nat) (m : mst) (s : sst) (c : list (op * obs)) : list (nat * N) :=
   match c with
